@@ -202,3 +202,94 @@ pub fn runb_main(epfile: &str, outdir: &str) -> i32 {
     let _ = std::fs::remove_dir_all(&root);
     0
 }
+
+// ---------------- crash twin: a real process killed at a sync point ----------------
+
+/// child: all steps up to the chosen sync call have returned; report and wait for SIGKILL
+pub fn wait_to_be_killed(w: &World) -> ! {
+    use std::io::Write;
+    println!("{}", json!({"t": "at-sync", "root": w.env.root}));
+    let _ = std::io::stdout().flush();
+    loop {
+        unsafe {
+            libc::pause();
+        }
+    }
+}
+
+/// `abysim xproc killrun <episode.json> <step>`
+pub fn killrun_main(epfile: &str, step: u32) -> i32 {
+    let ep: Episode = serde_json::from_str(&std::fs::read_to_string(epfile).expect("episode")).expect("episode json");
+    let root = crate::worker::scratch_root("k");
+    kernel::install(&root, kernel::Mode::Trace);
+    install_panic_hook();
+    let env = Env { root: root.clone(), verbose: false, allow_xproc: false, exe: String::new() };
+    crate::worker::arm_cpu_timer(120);
+    let mut e2 = ep.clone();
+    e2.buggify = None;
+    e2.checks = Checks::default();
+    let _ = crate::oracles::run_once_until(&e2, &env, "d", false, 0, Some(step));
+    // the step was never reached (episode ended earlier)
+    println!("{}", json!({"t": "not-reached", "root": root}));
+    let _ = std::fs::remove_dir_all(&root);
+    0
+}
+
+/// parent: pick one crash point, let a real process run to it on the real kernel, SIGKILL it
+/// there and compare the files it leaves behind with the simulated kill image
+pub fn kill_twin(ep: &Episode, env: &Env, digests: &[(u32, usize, [u64; 3])]) -> Result<bool, Violation> {
+    use std::io::{BufRead, BufReader};
+    let pick = &digests[(ep.seed % digests.len() as u64) as usize];
+    let step = pick.0;
+    let base = format!("{}/abysim.kt.{}.{}", tmp_base(), std::process::id(), ep.seed % 100000);
+    let _ = std::fs::create_dir_all(&base);
+    let epfile = format!("{base}/episode.json");
+    if std::fs::write(&epfile, serde_json::to_string(ep).unwrap()).is_err() {
+        return Ok(false);
+    }
+    let child = Command::new(&env.exe).args(["xproc", "killrun", &epfile, &step.to_string()]).stdin(Stdio::null()).stdout(Stdio::piped()).stderr(Stdio::null()).spawn();
+    let mut child = match child {
+        Ok(c) => c,
+        Err(_) => {
+            let _ = std::fs::remove_dir_all(&base);
+            return Ok(false);
+        }
+    };
+    let mut rd = BufReader::new(child.stdout.take().unwrap());
+    let mut line = String::new();
+    let _ = rd.read_line(&mut line);
+    let v: Value = serde_json::from_str(line.trim()).unwrap_or(Value::Null);
+    let root = v["root"].as_str().unwrap_or("").to_string();
+    let at_sync = v["t"].as_str() == Some("at-sync");
+    // SIGKILL: no destructor, no flush, nothing the process could still do
+    unsafe {
+        libc::kill(child.id() as i32, libc::SIGKILL);
+    }
+    let _ = child.wait();
+    let mut result = Ok(false);
+    if at_sync && !root.is_empty() {
+        let mut all_same = true;
+        let mut detail = String::new();
+        for (s, m, dg) in digests.iter().filter(|d| d.0 == step) {
+            let spec = &ep.maps[*m];
+            let d = format!("{root}/d{}", spec.dir);
+            for (i, ext) in ["htx", "key", "val"].iter().enumerate() {
+                let real = crate::golden::img_from_real_file(&format!("{d}/{}.{ext}", spec.name)).map(|im| im.digest()).unwrap_or(0);
+                if real != dg[i] {
+                    all_same = false;
+                    detail = format!("step {s}: file {}.{ext} left behind by the killed process differs from the simulated kill image", spec.name);
+                }
+            }
+        }
+        result = if all_same {
+            Ok(true)
+        } else {
+            Err(Violation { class: "crash-twin".into(), signature: "crash-twin:image-differs".into(), step, detail })
+        };
+    }
+    if !root.is_empty() {
+        let _ = std::fs::remove_dir_all(&root);
+    }
+    let _ = std::fs::remove_dir_all(&base);
+    result
+}
